@@ -6,7 +6,7 @@
 using namespace nix;
 using namespace vh;
 
-#define N_MISUSE 48
+#define N_MISUSE 55
 
 static void misuse(World &w, uint32_t op) {
     uint64_t i = nixsym_u64("index");                 // any 64-bit index
@@ -66,6 +66,17 @@ static void misuse(World &w, uint32_t op) {
     case 45: { w.da1.expansionOrigin(1.0); std::vector<int16_t> v(2); w.da1.getData(DataType::Int16, v.data(), NDSize({2}), NDSize({1})); std::vector<uint8_t> u(1); w.da1.getData(DataType::UInt8, u.data(), NDSize({1}), NDSize({3})); break; }
     case 46: { w.da2.polynomCoefficients({0.0, 1.0}); w.da2.expansionOrigin(2.0); std::vector<float> v(6); w.da2.getData(DataType::Float, v.data(), NDSize({2, 3}), NDSize({0, 0})); std::vector<int64_t> l(2); w.da2.getData(DataType::Int64, l.data(), NDSize({1, 2}), NDSize({1, 1})); break; }
     case 47: { std::vector<float> v(4); w.da1.getData(DataType::Float, v.data(), NDSize({4}), NDSize({0})); std::vector<int8_t> c(6); w.da2.getData(DataType::Int8, c.data(), NDSize({2, 3}), NDSize({0, 0})); DataView dv = w.tag.taggedData((size_t)0); NDSize e = dv.dataExtent(); std::vector<float> t((size_t)e.nelms()); dv.getData(DataType::Float, t.data(), e, NDSize({0})); break; }
+    // scalar targets with an offset of the wrong rank (here: none), on arrays and on views: one element or an exception, never more
+    case 48: { DataView v(w.da1, NDSize({3}), NDSize({1})); double x[2] = {0.0, -7.0}; v.getData(x[0], NDSize{}); nixsym_assert(x[1] == -7.0, "a scalar read writes one element"); break; }
+    case 49: { DataView v(w.da1, NDSize({3}), NDSize({1})); double x = 1.0; v.setData(x, NDSize{}); break; }
+    case 50: { double x = 0; w.da1.getData(x, NDSize{}); double y = 2.0; w.da2.setData(y, NDSize{}); break; }
+    case 54: { DataView v(w.da1, NDSize({3}), NDSize({1})); double x[2] = {9.0, -7.0}; v.setData(x[0], NDSize({0})); std::vector<double> all; w.da1.getData(all);       // scalar at an offset of a view: exactly one element
+               nixsym_assert(all.size() == 4 && all[0] == 1.5 && all[1] == 9.0 && all[2] == 3.5 && all[3] == 4.5, "a scalar write through a view changes exactly the addressed element"); break; }
+    // a multi-tag without positions (empty positions array): retrieval of "all positions" is an empty list or an exception
+    case 51: { w.ext.dataExtent(NDSize({0})); w.pos.dataExtent(NDSize({0})); std::vector<ndsize_t> idx; std::vector<DataView> r = util::taggedData(w.mtag, idx, (ndsize_t)0); nixsym_assert(r.empty(), "no positions, no views"); break; }
+    case 52: { w.ext.dataExtent(NDSize({0})); w.pos.dataExtent(NDSize({0})); std::vector<DataView> r = util::featureData(w.mtag, std::vector<ndsize_t>(), (ndsize_t)0); nixsym_assert(r.empty(), "no positions, no feature views"); break; }
+    // validation of tags whose unit list is longer / shorter than the descriptors of what they reference
+    case 53: { w.tag.units({"s", "ms", "s"}); w.tag_u.units({"s", "s"}); w.mtag.units({"s", "mV", "s"}); valid::Result r = w.f.validate(); (void)r; break; }
     }
 }
 
